@@ -17,7 +17,7 @@ import (
 func init() {
 	register(stream{
 		name: "meta",
-		rule: "key validation (nil, empty, 1–64 bytes, all-zero, one non-zero byte) against the model; plaintexts (empty, short, long, binary, invalid UTF-8) × key pairs: AddEncrypted then GetEncryptedString/GetEncryptedBytes, directly and after the token is sealed and unsealed (delegation and invocation, DAG-CBOR and DAG-JSON), with the right key, a wrong key, and EVERY single-bit modification of the stored value — the decryption verdict of x/crypto's secretbox.Open computed by the harness is given to the model as an oracle; stored length = plaintext + 40; two encryptions of one value differ; crypto/rand.Reader replaced by a source that fails after 0…30 bytes (encryption must fail unless a whole nonce was drawn, and store the drawn nonce); the plaintext occurs neither in the stored value nor in the sealed token. Non-trivial = every case. Distinct = distinct protocol lines.",
+		rule: "key validation (nil, empty, 1–64 bytes, all-zero, one non-zero byte) against the model; plaintexts (empty, short, long, binary, invalid UTF-8) × key pairs: AddEncrypted then GetEncryptedString/GetEncryptedBytes, directly and after the token is sealed and unsealed (delegation and invocation, DAG-CBOR and DAG-JSON), with the right key, a wrong key, and EVERY single-bit modification of the stored value — the decryption verdict of x/crypto's secretbox.Open computed by the harness is given to the model as an oracle; stored length = plaintext + 40; two encryptions of one value differ; crypto/rand.Reader replaced by a source that fails after 0…30 bytes (encryption must fail unless a whole nonce was drawn, and store the drawn nonce); the plaintext occurs neither in the stored value nor in the sealed token. Added later: the key rules through the four WithEncryptedMeta* token options; one option value used for two tokens (ciphertexts must differ); an encrypted value under an existing key (refused or readable, never dropped silently); a plaintext returned by GetEncryptedBytes stays what it was while other values are read. Non-trivial = every case. Distinct = distinct protocol lines.",
 		run:  runMetaStream,
 		eval: evalMeta,
 		cmp: func(line, g, m string) string {
